@@ -11,7 +11,10 @@ Proved (all inputs):
   * mode-frame queries in_braces / in_fstring / in_colon (E1 contracts).
 Bounded (exhaustive over short strings, real `re`): the literal-text search pattern of each quote style never runs past the closing
 quote and stops at the first single `{`.
-NOT proved: the f-string mode machine handle_fstring_progs / next_psuedo_matches (ASSUMED contracts) and concatenate_strings.
+The f-string mode machine is verified from its real bodies (E1, tagged C10): handle_fstring_progs / handle_end_progs /
+next_psuedo_matches push, pop and reset frames as the quote / brace / colon they meet demands, and emit the buffered literal text as
+one FSTRING_MIDDLE next to the delimiter; side conditions of the frame invariant are the C10.frames.* obligations.
+NOT proved: concatenate_strings; `re` itself (assumed Match contract).
 Bounded stand-in: prefix x quote x literal part x field form x layout products vs tokenize / ast.parse of the running CPython 3.12.
 The unchanged tree violates the property on several whole classes of f-strings (doubled braces, escapes in literal parts, `=`
 debug fields, nested fields in specs, specs inside triple quotes, \\N{...}, ...): each class is a known finding keyed by the input
@@ -244,6 +247,59 @@ def action_obligations(rep: Report):
         rep.fail("C10.reach.fstring_only_via_strings", "protocol", "`fstring` is referenced only by `strings`", "pegir-fixpoint", f"referenced by {who}", witness=who)
 
 
+def frame_obligations(rep: Report):
+    """side conditions of the EndProg frame invariant used by E1 (contracts/shapes.py): frames are built only by add_prog, their
+    mode / pattern / quote are never written afterwards, a format-spec frame is pushed only on top of a replacement-field frame"""
+    src = open(os.path.join(REPO, "peg_parser", "tokenize.py"), encoding="utf-8").read()
+    tree = ast.parse(src)
+    fn_of = {}
+    for f in ast.walk(tree):
+        if isinstance(f, ast.FunctionDef):
+            for n in ast.walk(f):
+                fn_of.setdefault(id(n), f.name)
+    ctor = sorted({fn_of.get(id(n), "<module>") for n in ast.walk(tree) if isinstance(n, ast.Call) and isinstance(n.func, ast.Name) and n.func.id == "EndProg"})
+    desc = "EndProg frames are constructed only inside TokenizerState.add_prog (whose precondition is the frame invariant)"
+    if ctor == ["add_prog"]:
+        rep.ok("C10.frames.only_add_prog", "structural", desc, "syntactic", function="peg_parser/tokenize.py:TokenizerState.add_prog")
+    else:
+        rep.fail("C10.frames.only_add_prog", "structural", desc, "syntactic", f"EndProg(...) is called in {ctor}", witness=ctor)
+    writes = sorted({f"{fn_of.get(id(t), '<module>')}: .{t.attr}" for n in ast.walk(tree) if isinstance(n, (ast.Assign, ast.AugAssign, ast.AnnAssign))
+                     for t in (n.targets if isinstance(n, ast.Assign) else [n.target]) if isinstance(t, ast.Attribute) and t.attr in ("mode", "pattern", "quote")
+                     and not (isinstance(t.value, ast.Name) and t.value.id == "self" and fn_of.get(id(t)) == "__init__")})
+    desc = "no statement assigns to the .mode / .pattern / .quote attribute of a frame after its construction"
+    if not writes:
+        rep.ok("C10.frames.immutable", "structural", desc, "syntactic", function="peg_parser/tokenize.py")
+    else:
+        rep.fail("C10.frames.immutable", "structural", desc, "syntactic", f"assignments: {writes}", witness=writes)
+    # every add_prog(..., mode=ModeInColon(...)) is guarded by state.in_braces() in the enclosing if-test
+    bad, seen = [], 0
+    class V(ast.NodeVisitor):
+        def __init__(self):
+            self.guards = []
+        def visit_If(self, n):
+            self.guards.append(ast.unparse(n.test))
+            for x in n.body:
+                self.visit(x)
+            self.guards.pop()
+            self.guards.append("not (" + ast.unparse(n.test) + ")")
+            for x in n.orelse:
+                self.visit(x)
+            self.guards.pop()
+        def visit_Call(self, n):
+            nonlocal seen
+            if isinstance(n.func, ast.Attribute) and n.func.attr == "add_prog" and any(k.arg == "mode" and "ModeInColon" in ast.unparse(k.value) for k in n.keywords):
+                seen += 1
+                if not any(".in_braces()" in g and not g.startswith("not (") for g in self.guards):
+                    bad.append(f"line {n.lineno}: guards {self.guards}")
+            self.generic_visit(n)
+    V().visit(tree)
+    desc = "a format-spec frame (ModeInColon) is pushed only under a test that includes in_braces(): it always sits on the replacement-field frame that opened it"
+    if seen >= 1 and not bad:
+        rep.ok("C10.frames.colon_on_braces", "structural", desc + f" ({seen} site)", "syntactic", function="peg_parser/tokenize.py:next_psuedo_matches")
+    else:
+        rep.fail("C10.frames.colon_on_braces", "structural", desc, "syntactic", f"{seen} site(s); unguarded: {bad}", witness=bad or seen)
+
+
 def users_of(ir, helper):
     from checks.c14 import walk_pe
     return sorted({n for n, r in ir.rules.items() for a in r.alts for it in a.items if it.pe is not None for p in walk_pe(it.pe) if p.kind == "rule" and p.arg == helper})
@@ -340,11 +396,12 @@ def standin(rep: Report):
 def run(rep: Report):
     rep.trust("CPython ast / tokenize of the running 3.12 as oracle", "engine/pegir", "engine/gramref", "engine/pyvc", "the repository's pegen front end as grammar reader")
     rep.assume("spec/ref/python312_fstring.gram is a faithful hand transcription of CPython 3.12's f-string rules (no 3.12 source tree offline)",
-               "ASSUMED contracts (bodies not verified): handle_fstring_progs, next_psuedo_matches, handle_end_progs (the f-string mode machine); concatenate_strings is not under contract",
+               "ASSUMED: the contract of TokenizerState.match (what `re` does; engine/pymatch.py) and the top-only abstraction of the frame stack; concatenate_strings is not under contract",
                "xonsh constructs inside replacement fields are compared by C05's stand-in",
                "inputs carrying a known-bad feature (see known_findings.json, sites fstring:*) are not compared beyond that finding")
     e1common.file_into(rep, "C10", rep.tier)
     grammar_obligations(rep)
     action_obligations(rep)
+    frame_obligations(rep)
     regex_bounded(rep)
     standin(rep)
